@@ -76,6 +76,9 @@ func genModes(t *Tracer, m *Meta, tier string, seed int64) {
 					pat = uint64(r.Intn(1 << uint(n-1)))
 				}
 				vals = valsFromPattern(enc, n, pat, 0)
+				if n > 2 && r.Intn(2) == 0 {
+					vals = valsRecurring(r, enc, n, 2+r.Intn(2), 0)
+				}
 			}
 			runModesCase(t, m, &TrieCase{Keys: keys, Enc: enc, Vals: vals}, strs)
 		})
